@@ -89,7 +89,7 @@ def fallback_verdict(doc_text, has_tr, has_sec, mode, parser):
         return 'two-whole: two tracts both carry the complete text'
     forced = mode == 'copy_all'
     forced_other = mode in ('TRS_desc', 'desc_STR', 'S_desc_TR', 'TR_desc_S')      # the user mandated another layout
-    if forced or ((not has_tr or not has_sec) and 'segment' not in mode and not forced_other):
+    if forced or ((not has_tr or not has_sec) and not forced_other):
         if len(tracts) != 1:
             return f'count: copy_all ({"forced" if forced else "fallback"}) gave {len(tracts)} tracts'
         if forced and str(tracts[0].desc) != doc_text:
